@@ -109,8 +109,14 @@ def run_check(pid, tier, seed):
     # 3./4. correspondence + implementation-level oracle
     sess = Session(pid, seed, tier)
     gen_error = None
+    rejected = None
     try:
         mod.generate(sess)
+    except HarnessRejected as e:
+        # the real code refused to parse a request built from valid values: generation stops here and the
+        # refusal is judged against the model below
+        rejected = e
+        notes.append("generation stopped early: " + str(e)[:300])
     except Exception as e:
         gen_error = traceback.format_exc()
     finally:
@@ -120,6 +126,10 @@ def run_check(pid, tier, seed):
         print("CHECK-ERROR generator failed (not a property verdict)")
         return 2
     ncmp, dis, non = compare_with_model(sess.records)
+    if rejected is not None and not any(d["req"] == rejected.req for d in dis):
+        m = batch([DRIVER_BIN], [rejected.req]) if model_supported(rejected.req) else ["(not modelled)"]
+        if not m or not m[0].startswith("bad-"):
+            dis.append({"req": rejected.req, "impl": rejected.raw, "model": (m or ["?"])[0], "tag": "request-rejected-by-the-code", "gate": EXACT})
 
     known = [k for k in known_findings() if k["property"] == pid]
     n_v = 0
